@@ -54,6 +54,30 @@ impl Write for CutAfterHello {
     }
 }
 
+/// Lets the ClientHello out, then sends a fatal alert record of the given description and pretends the peer vanished.
+#[derive(Debug)]
+struct AlertAfterHello(Conn, u8, bool);
+impl Read for AlertAfterHello {
+    fn read(&mut self, _b: &mut [u8]) -> std::io::Result<usize> {
+        if !self.2 {
+            self.2 = true;
+            let _ = self.0.write_all(&[0x15, 0x03, 0x03, 0x00, 0x02, 0x02, self.1]);
+            let _ = self.0.flush();
+            // leave the server the time to read it before the socket goes away
+            std::thread::sleep(Duration::from_millis(30));
+        }
+        Err(std::io::Error::new(std::io::ErrorKind::ConnectionAborted, "abandoned"))
+    }
+}
+impl Write for AlertAfterHello {
+    fn write(&mut self, b: &[u8]) -> std::io::Result<usize> {
+        self.0.write(b)
+    }
+    fn flush(&mut self) -> std::io::Result<()> {
+        self.0.flush()
+    }
+}
+
 pub fn connect(target: &str) -> std::io::Result<Conn> {
     let c = if let Some(p) = target.strip_prefix("unix:") {
         let s = UnixStream::connect(p)?;
@@ -90,6 +114,10 @@ fn strs(v: Option<&Value>) -> Vec<String> {
 
 fn step(target: &str, sni: &str, s: &Value, seed: &mut Rng) -> Value {
     let what = s["do"].as_str().unwrap_or("valid");
+    if what == "sleep" {
+        std::thread::sleep(Duration::from_millis(s.get("ms").and_then(|v| v.as_u64()).unwrap_or(1000)));
+        return json!({"do": what, "connected": true});
+    }
     let tries = s.get("connect_tries").and_then(|v| v.as_u64()).unwrap_or(1) as u32;
     let conn = match connect_retry(target, tries) {
         Ok(c) => c,
@@ -123,6 +151,42 @@ fn step(target: &str, sni: &str, s: &Value, seed: &mut Rng) -> Value {
             }
             drop(conn);
             json!({"do": what, "connected": true})
+        }
+        "hello_alert" => {
+            // a well-formed ClientHello followed by fatal alerts of several descriptions (one connection each)
+            let mut out = vec![];
+            let mut c = Some(conn);
+            for d in [80u8, 40, 70, 90, 10, 20, 47, 50, 0, 255] {
+                let cc = match c.take() { Some(x) => Ok(x), None => connect(target) };
+                if let Ok(cc) = cc {
+                    let r = tls_probe(AlertAfterHello(cc, d, false), sni, &["acme-tls/1".to_string()]);
+                    out.push(json!({"alert": d, "ok": r.get("handshake_ok")}));
+                }
+                std::thread::sleep(Duration::from_millis(20));
+            }
+            json!({"do": what, "connected": true, "alerts": out})
+        }
+        "rst_storm" => {
+            // many abortive closes, each a few microseconds after connect(): some reach the server between its accept() and its next call
+            let n = s.get("count").and_then(|v| v.as_u64()).unwrap_or(800);
+            let mut sent = 0;
+            let mut c = Some(conn);
+            for k in 0..n {
+                let cc = match c.take() { Some(x) => Ok(x), None => connect(target) };
+                if let Ok(Conn::Tcp(st)) = cc {
+                    use std::os::unix::io::AsRawFd;
+                    let t0 = std::time::Instant::now();
+                    let wait = Duration::from_micros((k % 90) as u64);
+                    while t0.elapsed() < wait { std::hint::spin_loop(); }
+                    let l = libc::linger { l_onoff: 1, l_linger: 0 };
+                    unsafe {
+                        libc::setsockopt(st.as_raw_fd(), libc::SOL_SOCKET, libc::SO_LINGER, &l as *const _ as *const libc::c_void, std::mem::size_of::<libc::linger>() as u32);
+                    }
+                    drop(st);
+                    sent += 1;
+                }
+            }
+            json!({"do": what, "connected": true, "resets": sent})
         }
         "tls_odd_sni" => {
             // complete handshakes asking for server names of unusual length / content
